@@ -99,7 +99,14 @@ class Renderer:
 
         def emits(cb, t, _self=self):
             ff = lib.fns.get(cb.name, {})
-            if ff.get("pub") or not any(x.get("s", "").startswith("&mut std::string::String") for x in ff.get("inputs", [])):
+            if ff.get("pub"):
+                return False
+            ins = ff.get("inputs", [])
+            writes_acc = any(x.get("s", "").startswith("&mut std::string::String") for x in ins)
+            # a text builder: strings in, String out (e.g. fn rename_line(name: &str) -> String { format!(..) })
+            text_builder = ff.get("output", {}).get("adt") == "std::string::String" and ins and \
+                all(x.get("prim") == "str" or x.get("adt") == "std::string::String" for x in ins)
+            if not (writes_acc or text_builder):
                 return False
             _self.helpers.add(cb.name)
             return True
